@@ -26,9 +26,13 @@ impl OutputFormatter {
             Self::format_base_output(zerv_object, output_format)?
         };
 
-        // 2. Apply prefix if specified
+        // 2. Apply prefix if specified. The zerv format is a RON document meant for
+        //    `--source stdin`, which a prefix would make unreadable: it only applies to version strings
         if let Some(prefix) = output_prefix {
-            output = format!("{prefix}{output}");
+            let is_ron_document = output_template.is_none() && output_format == formats::ZERV;
+            if !is_ron_document {
+                output = format!("{prefix}{output}");
+            }
         }
 
         Ok(output)
